@@ -107,7 +107,7 @@ class TxnAnalysis:
       return evs
     for c in flow.node_calls(n):
       d = dotted(c.func) or ''
-      if d == f'self.{self.wrapper}':
+      if self.wrapper and d == self.wrapper:
         evs.append(('wwrite', c))
       elif d.endswith('_connection.execute') and d.startswith('self.'):
         if self._arg_kind(c) == 'write':
@@ -210,29 +210,24 @@ def run(ctx) -> None:
   r7_engine_config(ctx, svc)
   sql = svc.sql
   # wrapper summary: _write_or_rollback rolls back on every exceptional path
-  wrapper = None
-  for m in sql.methods.values():
-    if not m.name.startswith('_') or m.name.startswith('__'):
-      continue
-    calls = [dotted(c.func) or '' for c in flow.calls_in(m.node)]
-    users = sum(1 for o in sql.methods.values() if o is not m and any(
-        (dotted(c.func) or '') == f'self.{m.name}' for c in flow.calls_in(o.node)))
-    if any(c.endswith('_connection.execute') for c in calls) and users >= 3:
-      wrapper = m
-  if wrapper is None:
-    raise AnalysisError('write wrapper (private method executing its query argument, used by >= 3 '
-                        'methods) not found in SQLDataStore')
-  rolls = _wrapper_rolls_back(ctx, wrapper)
-  ctx.check(rolls, 'R2', f'{wrapper.name}: rollback before re-raise', wrapper.node,
-            'every exceptional path of the wrapper calls rollback() before raising',
-            'the write wrapper can re-raise without rollback()', construct='wrapper', func=wrapper.qualname)
+  wrapper = svc.sql_wrapper().fi
+  wrapper_call = svc.sql_wrapper().call_name
+  rolls = False
+  if wrapper is not None:
+    rolls = _wrapper_rolls_back(ctx, wrapper)
+    ctx.check(rolls, 'R2', f'{wrapper.name}: rollback before re-raise', wrapper.node,
+              'every exceptional path of the wrapper calls rollback() before raising',
+              'the write wrapper can re-raise without rollback()', construct='wrapper', func=wrapper.qualname)
+  else:
+    ctx.info('no rollback wrapper in SQLDataStore: every write is a direct execute and R2 is decided on the '
+             'exception edges of each method')
 
   n_writes = n_commits = n_rollbacks = 0
   for m in svc.ds_abstract:
     impl = sql.methods.get(m.name)
     if impl is None:
       raise AnalysisError(f'SQLDataStore lacks {m.name}')
-    ta = TxnAnalysis(ctx, svc, impl, rolls, wrapper.name).run()
+    ta = TxnAnalysis(ctx, svc, impl, rolls, wrapper_call).run()
     nn, ne = ta.g.stats()
     ctx.count('cfg_nodes', nn)
     ctx.count('cfg_edges', ne)
@@ -307,7 +302,7 @@ def run(ctx) -> None:
 
   r4_one_mutation(ctx, svc)
   r6_ids(ctx, svc)
-  r8_startup_readonly(ctx, svc, rolls, wrapper.name)
+  r8_startup_readonly(ctx, svc, rolls, wrapper_call)
 
 
 def r8_startup_readonly(ctx, svc: Svc, rolls: bool, wrapper_name: str) -> None:
@@ -391,7 +386,7 @@ def _wrapper_rolls_back(ctx, wrapper: FuncInfo) -> bool:
     if n.kind == 'stmt' and isinstance(n.ast, ast.Raise):
       out.append('*')
     for c in flow.node_calls(n):
-      if (dotted(c.func) or '').endswith('_connection.execute'):
+      if isinstance(c.func, ast.Attribute) and c.func.attr == 'execute':
         out.append('sqlalchemy.exc.DatabaseError')
     return out
 
